@@ -99,7 +99,7 @@ fn random_op(rng: &mut Rng, h_nr: usize, h_nc: usize, present: &[(usize, usize)]
 pub fn generate(a: &Args) {
     let mut out = Out::create(&a.out);
     let mut rng = Rng::new(a.seed ^ 0xC17);
-    let (hist, len) = if is_thorough(a) { (400, 200) } else { (40, 60) };
+    let (hist, len) = if is_thorough(a) { (1500, 200) } else { (40, 60) };
     let shapes = [(1, 1), (1, 4), (3, 1), (2, 3), (3, 3), (4, 5), (6, 8), (5, 2)];
     for hidx in 0..hist {
         let (nr, nc) = shapes[hidx % shapes.len()];
